@@ -141,7 +141,9 @@ static std::string hammer(const std::vector<std::string>& a) {
             U64 key = keys[s % keys.size()];
             if ((s >> 32) % 3 == 0) {
                 Rec r = recOf(key, (int)((s >> 40) & 7));
-                Move m(Square(r.from), Square(r.to), 0, r.score);
+                // a quarter of the stores carry the empty move: insert() then keeps the move already stored for this key
+                bool emptyMove = ((s >> 44) & 3) == 0;
+                Move m(Square(emptyMove ? 0 : r.from), Square(emptyMove ? 0 : r.to), 0, r.score);
                 table.insert(key, m, r.type, 0, r.depth, r.eval);
                 inserts++;
                 if (((s >> 50) & 255) == 0) table.nextGeneration();
@@ -152,9 +154,16 @@ static std::string hammer(const std::vector<std::string>& a) {
                 hits++;
                 bool okRec = false;
                 Move m; e.getMove(m);
+                // score/type/depth/eval must come from ONE record stored for this key; the move from some record of this
+                // key (or be empty), because an empty-move store keeps the key's previous move
+                bool okMove = m.isEmpty() && m.promoteTo() == 0;
+                for (int v = 0; v < 8 && !okMove; v++) {
+                    Rec r = recOf(key, v);
+                    okMove = m.from().asInt() == r.from && m.to().asInt() == r.to && m.promoteTo() == 0;
+                }
                 for (int v = 0; v < 8 && !okRec; v++) {
                     Rec r = recOf(key, v);
-                    okRec = e.getKey() == key && m.from().asInt() == r.from && m.to().asInt() == r.to && m.promoteTo() == 0 &&
+                    okRec = okMove && e.getKey() == key &&
                             e.getScore(0) == r.score && e.getType() == r.type && e.getDepth() == r.depth &&
                             e.getEvalScore() == r.eval && !e.getBusy();
                 }
